@@ -24,10 +24,10 @@ func init() {
 var c19Names = []string{"a", "b", "c", "d", "e", "ab", "Z", "A", "Ab", "aB", "É", "a ", "e\u0301", "é", "a b", "0", "a\"", "a#", "x<y", "x=y", "a\\b", "\u2028"}
 
 type c19gen struct {
-	arena   []string // PropertyOrder / Required lists are sub-slices of one array: each has spare capacity that runs into the next list
-	c       *Ctx
-	hasDup  bool
-	rich    bool // some level has >=3 properties, >=1 listed, >=2 unlisted
+	arena  []string // PropertyOrder / Required lists are sub-slices of one array: each has spare capacity that runs into the next list
+	c      *Ctx
+	hasDup bool
+	rich   bool // some level has >=3 properties, >=1 listed, >=2 unlisted
 }
 
 func (g *c19gen) order(props map[string]*jsonschema.Schema) []string {
@@ -393,7 +393,9 @@ func driveC19(c *Ctx) {
 	if len(TypeCorpus) > 0 && c.W(6) == 0 {
 		ti := c.W(len(TypeCorpus))
 		var err error
-		r := Op(func() { s, err = jsonschema.ForType(TypeCorpus[ti].T, &jsonschema.ForOptions{IgnoreInvalidTypes: true}) })
+		r := Op(func() {
+			s, err = jsonschema.ForType(TypeCorpus[ti].T, &jsonschema.ForOptions{IgnoreInvalidTypes: true})
+		})
 		c.CheckOp("ForType", r)
 		if r.Panicked || err != nil || s == nil {
 			s = g.schema(3)
@@ -439,6 +441,23 @@ func driveC19(c *Ctx) {
 				if !r2.Panicked && (err2 != nil || string(b2) != d) {
 					c.Fail("C19/determinism", "value-vs-pointer", "json.Marshal(*s) gave %.200q (err %v), json.Marshal(s) gave %.200q", b2, err2, d)
 				}
+			}
+			if si == 0 && rep == 1 && err == nil && !r.Panicked {
+				// The bytes MarshalJSON returns belong to the caller: it may reuse the slice (decoding
+				// into a json.RawMessage field does). Scribbling over them - up to their capacity -
+				// must not change what any later Marshal returns.
+				nodes := allSchemas(s)
+				for k := 0; k < len(nodes) && k < 8; k++ {
+					n := nodes[(k*7)%len(nodes)]
+					var own []byte
+					r3 := Op(func() { own, _ = n.MarshalJSON() })
+					c.CheckOp("MarshalJSON", r3)
+					own = own[:cap(own)]
+					for i := range own {
+						own[i] = 'X'
+					}
+				}
+				c.Probe("caller-overwrote-returned-bytes")
 			}
 			if si == 0 && rep == 0 {
 				base = d
